@@ -282,6 +282,17 @@ Proof.
     destruct (modified_fields Lo s 0) as (_ & _ & F & _). fold s0 in F. rewrite F in R. exact R.
 Qed.
 
+(* :next / :prev (vi: zJ / zK) when the argument is already open *)
+Theorem reaches_arg s dis p i b : nth_path (args s) (next_pos s) <> None -> nth_path (args s) (next_pos s + dis) = Some p -> p <> [] ->
+  bufs_find s p = Some i -> (1 <= i)%nat -> nth_error (bufs s) i = Some (Some b) -> (xwa s = true \/ dirty_at Lo s 0 = false) ->
+  let s' := fst (ex_next Lo s dis) in slot0 s' = Some b /\ xv s' = b_view b /\ fs s' = fs s /\ next_pos s' = (next_pos s + dis)%Z.
+Proof.
+  intros Ha Hp Hne Hf Hi Hn Hok. cbn zeta. unfold ex_next. destruct (nth_path (args s) (next_pos s)); [|congruence]. rewrite Hp.
+  assert (Hok' : false || xwa s = true \/ dirty_at Lo s 0 = false) by (destruct Hok; auto).
+  pose proof (reaches_path_gen s false (PLit p) p i b Hok' eq_refl Hne Hf Hi Hn) as R. cbn zeta in R.
+  destruct (ec_edit Lo s false false (PLit p)) as [[s1 evs] ok]. cbn [fst snd] in *. destruct R as (-> & _ & A & B & C & _). cbn. auto.
+Qed.
+
 (* ---------- the summary: the buffer reached is THE one named ---------- *)
 (* slot i >= 1 holds the buffer b that command c names in state s *)
 Definition names s (c : cmd Op) (i : nat) (b : buf) : Prop :=
@@ -293,6 +304,10 @@ Definition names s (c : cmd Op) (i : nat) (b : buf) : Prop :=
   | CBufAlias k => i = k /\ (k < 3)%nat
   | CEdit _ _ a => exists p, pathexpand s a = Some p /\ p <> [] /\ b_path b = canon p /\
                                   forall j b', (j < i)%nat -> nth_error (bufs s) j = Some (Some b') -> b_path b' <> canon p
+  | CNext => exists p, nth_path (args s) (next_pos s) <> None /\ nth_path (args s) (next_pos s + 1) = Some p /\ p <> [] /\ b_path b = canon p /\
+                       forall j b', (j < i)%nat -> nth_error (bufs s) j = Some (Some b') -> b_path b' <> canon p
+  | CPrev => exists p, nth_path (args s) (next_pos s) <> None /\ nth_path (args s) (next_pos s + -1) = Some p /\ p <> [] /\ b_path b = canon p /\
+                       forall j b', (j < i)%nat -> nth_error (bufs s) j = Some (Some b') -> b_path b' <> canon p
   | _ => False
   end.
 Definition not_refused s (c : cmd Op) : Prop :=
@@ -345,6 +360,22 @@ Proof.
     destruct (ec_buffer_prev Lo s) as [s1 evs] eqn:E. apply (G s1 evs eq_refl). exact R.
   - (* b # / b ^ *) destruct Hc as [<- Hk]. pose proof (reaches_alias Lo s i b ltac:(lia) Hn Hok) as R. cbn zeta in R.
     destruct (ec_buffer_alias Lo s i) as [s1 evs] eqn:E. apply (G s1 evs eq_refl). exact R.
+  - (* next *) destruct Hc as (p & Ha & Hp & Hne & Hpath & Hfirst).
+    assert (Hf : bufs_find s p = Some i).
+    { unfold bufs_find. apply (first_idx_first _ _ i (Some b) Hn).
+      - cbn. apply path_eqb_eq. exact Hpath.
+      - intros j [b'|] Hj Hy; [|reflexivity]. cbn. destruct (path_eqb (b_path b') (canon p)) eqn:Q; [|reflexivity].
+        apply path_eqb_eq in Q. exfalso. exact (Hfirst j b' Hj Hy Q). }
+    pose proof (reaches_arg s 1 p i b Ha Hp Hne Hf Hi Hn Hok) as R. cbn zeta in R.
+    destruct (ex_next Lo s 1) as [s1 evs] eqn:E. apply (G s1 evs eq_refl). cbn [fst] in R. destruct R as (A & B & C & _). auto.
+  - (* prev *) destruct Hc as (p & Ha & Hp & Hne & Hpath & Hfirst).
+    assert (Hf : bufs_find s p = Some i).
+    { unfold bufs_find. apply (first_idx_first _ _ i (Some b) Hn).
+      - cbn. apply path_eqb_eq. exact Hpath.
+      - intros j [b'|] Hj Hy; [|reflexivity]. cbn. destruct (path_eqb (b_path b') (canon p)) eqn:Q; [|reflexivity].
+        apply path_eqb_eq in Q. exfalso. exact (Hfirst j b' Hj Hy Q). }
+    pose proof (reaches_arg s (-1) p i b Ha Hp Hne Hf Hi Hn Hok) as R. cbn zeta in R.
+    destruct (ex_next Lo s (-1)) as [s1 evs] eqn:E. apply (G s1 evs eq_refl). cbn [fst] in R. destruct R as (A & B & C & _). auto.
 Qed.
 
 (* the named buffer is unique *)
@@ -364,6 +395,16 @@ Proof.
   - destruct Hc as [Hlt Hmin]. destruct Hc' as [Hlt' Hmin']. eapply (wf_unique s i i' b b' W Hn Hn').
     specialize (Hmin i' b' Hn' Hlt'). specialize (Hmin' i b Hn Hlt). lia.
   - destruct Hc as [-> _]. destruct Hc' as [-> _]. reflexivity.
+  - destruct Hc as (p & _ & Hp & _ & Hpath & Hfirst). destruct Hc' as (p' & _ & Hp' & _ & Hpath' & Hfirst').
+    assert (p' = p) by congruence. subst p'.
+    destruct (lt_eq_lt_dec i i') as [[Hlt|Heq]|Hgt]; [|exact Heq|].
+    + exfalso. exact (Hfirst' i b Hlt Hn Hpath).
+    + exfalso. exact (Hfirst i' b' Hgt Hn' Hpath').
+  - destruct Hc as (p & _ & Hp & _ & Hpath & Hfirst). destruct Hc' as (p' & _ & Hp' & _ & Hpath' & Hfirst').
+    assert (p' = p) by congruence. subst p'.
+    destruct (lt_eq_lt_dec i i') as [[Hlt|Heq]|Hgt]; [|exact Heq|].
+    + exfalso. exact (Hfirst' i b Hlt Hn Hpath).
+    + exfalso. exact (Hfirst i' b' Hgt Hn' Hpath').
 Qed.
 
 (* ---------- `b ~`: renumbering changes ids only; the history theorem including it ---------- *)
